@@ -160,7 +160,7 @@ def riemann_runs(ctx, rng, idx):
     eqn, flux = [("euler", "hlle"), ("euler", "hllc"), ("shallowwater", "rusanov"), ("shallowwater", "hll")][(idx // 4) % 4]
     mname = "euler1d" if eqn == "euler" else "shallowwater"
     model, mparams = gen.make_model(mname, rng, gamma=float(rng.choice([1.2, 1.4, 5.0 / 3.0])) if eqn == "euler" else None)
-    n = int(rng.integers(3, 61))
+    n = int(rng.integers(3, 61)) if rng.random() < 0.9 else int(rng.integers(1, 3))
     mesh, mdesc = gen.mesh1d(rng, kind="uni", ncell=n)
     bc = str(rng.choice(["per", "sym"]))
     prim, kind = _data(rng, n, eqn, model)
